@@ -195,7 +195,37 @@ def run(tier, seed):
         if got != exp:
             res.violation('h03:subquery-order:' + q[:90], 'sorting is stable: rows tying on the outer keys keep the order of the ordered subquery', {'query': q, 'nrows': len(ROWS)}, got, exp)
     special(res)
+    attribute_keys(res)
     return res.asdict()
+
+
+def attribute_keys(res):
+    """a sort key that is an attribute of a structured value (price.number, weight.number, position.units.currency) is an expression
+    of its own, also when its last component is the name of a selected output: the rows are ordered by the attribute value"""
+    from harness import ledger
+    lc = ledger.connect()
+    nk = lambda v: (v is not None, v if v is not None else 0)
+    for sel, key, desc in [('account, number', 'weight.number', False), ('account, number', 'weight.number', True), ('account, number', 'price.number', False),
+                           ('account, currency', 'weight.currency', False), ('number, date', 'entry.date', True), ('account, number AS currency', 'position.units.currency', False)]:
+        q = f'SELECT {sel} FROM #postings ORDER BY {key}' + (' DESC' if desc else '')
+        res.case(q, {'query': q})
+        try:
+            got = [tuple(r) for r in lc.execute(q).fetchall()]
+            ref = lc.execute(f'SELECT {sel}, {key} AS sortkey__ FROM #postings').fetchall()
+        except Exception as e:
+            res.violation('h03:attribute-key-crash:' + q[:70], 'ORDER BY on an attribute expression executes', {'query': q}, f'{type(e).__name__}: {e}', 'rows')
+            continue
+        kv = [r[-1] for r in ref]
+        if any(v is None for v in kv):
+            order = sorted(range(len(ref)), key=lambda i: (kv[i] is not None, kv[i] if kv[i] is not None else type(next(v for v in kv if v is not None))()), reverse=desc)
+        else:
+            order = sorted(range(len(ref)), key=lambda i: kv[i], reverse=desc)
+        if desc:       # reverse=True keeps the original order of ties reversed twice: python's sort is stable under reverse as well
+            pass
+        exp = [tuple(ref[i][:-1]) for i in order]
+        if got != exp:
+            k = next((i for i, (a, b) in enumerate(zip(got, exp)) if a != b), None)
+            res.violation('h03:attribute-key:' + q[:70], 'rows are ordered by the value of the attribute expression (stable, NULL first)', {'query': q}, got[k:k + 2] if k is not None else len(got), exp[k:k + 2] if k is not None else len(exp))
 
 
 def special(res):
